@@ -634,7 +634,7 @@ Proof.
   { induction more0 as [|j more0 IH]; intros S0 I0 Hc0 Hw0 Hp0; simpl; auto.
     apply IH.
     - apply inv_sys_step; auto.
-    - apply (complete_stable_step c ws Hwf Hh S0 j i I0 Hi Hc0).
+    - apply (complete_stable_step c ws Hwf S0 j i I0 Hi Hc0).
     - apply input_of_step; auto.
     - destruct (Nat.eq_dec j k) as [->|Hne]; [|rewrite pc_of_step_other by auto; exact Hp0].
       destruct Hw0 as [p Ep]. unfold pc_of in Hp0. rewrite Ep in Hp0. simpl in Hp0.
